@@ -506,12 +506,22 @@ pub fn dashops(seed: u64, n: usize) -> Vec<Value> {
         let nsub = match r.range(0, 9) { 0..=3 => 1, 4..=7 => 2, _ => 3 };
         let mut ops = Vec::new();
         let mut ok = true;
+        let mut prev_closed_start: Option<(i32, i32)> = None;
         for _ in 0..nsub {
             let (mut x, mut y) = (r.range(8, 18) as i32, r.range(8, 18) as i32);
+            // one subpath in three that follows a closed one continues after the Close without a MoveTo: it starts at the
+            // closed subpath's starting point, and the dash pattern restarts there
+            let cont = prev_closed_start.is_some() && r.chance(1, 3);
+            if let (true, Some(p)) = (cont, prev_closed_start) {
+                x = p.0;
+                y = p.1;
+            } else {
+                ops.push(json!(["M", x, y]));
+            }
             let (sx, sy) = (x, y);
-            ops.push(json!(["M", x, y]));
+            prev_closed_start = None;
             // one subpath in ten is a single point (possibly closed): it paints nothing and must not disturb its neighbours
-            let nseg = if r.chance(1, 10) { 0 } else { r.range(1, 3) };
+            let nseg = if cont { r.range(1, 3) } else if r.chance(1, 10) { 0 } else { r.range(1, 3) };
             for _ in 0..nseg {
                 let m = moves[r.range(0, 15) as usize];
                 x += m.0;
@@ -521,7 +531,10 @@ pub fn dashops(seed: u64, n: usize) -> Vec<Value> {
             if r.chance(1, 2) {
                 let d2 = (x - sx) * (x - sx) + (y - sy) * (y - sy);
                 match isq(d2) {
-                    Some(_) => ops.push(json!(["Z"])),
+                    Some(_) => {
+                        ops.push(json!(["Z"]));
+                        prev_closed_start = Some((sx, sy));
+                    }
                     None => ok = false,
                 }
             }
